@@ -1124,7 +1124,7 @@ def huge_twin(ctx, c, out, cells=300000):
                 break
 
 
-def run_stream(ctx, model, cases, stream, tol=common.TOL, on_result=None, rerun=True, narrow=True, pipeline=True, layout=True, strict=True, payload=True, tile=True, exact=True, fault=True, plain=True, derived=True):
+def run_stream(ctx, model, cases, stream, tol=common.TOL, on_result=None, rerun=True, narrow=True, pipeline=True, layout=True, strict=True, payload=True, tile=True, exact=True, fault=True, plain=True, derived=True, fresh=True):
     """runs cases on implementation and model, records disagreements; calls on_result(case, out, answer)"""
     outs = []
     kept = []
@@ -1157,6 +1157,25 @@ def run_stream(ctx, model, cases, stream, tol=common.TOL, on_result=None, rerun=
                     ctx.fail("%s: not exact where the arithmetic needs no rounding - %s" % (c.cmd, d), c.describe())
                 elif dyadic_case(c) and out["status"] == "ok":
                     ctx.count("exact_on_dyadic_inputs")
+        if fresh and out["status"] == "ok" and c.inputs and not (c.cmd in HANDS_BACK_SINGLE and len(c.inputs) == 1):
+            # a command "computes" its result: except for the four commands that hand a single input back as it is (Model/EemsHeap `aliases`), the result is a
+            # value of its own - not the input field's array object and not a view of its values or of its missing-cell flags (a result that IS the input:
+            # whoever masks or corrects a cell of the result afterwards rewrites the input field, and everything evaluated from it later).  Every command,
+            # every number of inputs (a list of ONE field included), masked and plain inputs
+            ctx.count("fresh_result_checks")
+            d = result_shares(out)
+            if d is None and c.inputs[0].size <= 4096 and not any(numpy.ma.getmaskarray(a).any() for a in c.inputs):
+                outp = run_impl(c, plain=True)
+                d = result_shares(outp) if outp["status"] == "ok" else None
+                d = d and d + " (inputs handed over as plain ndarrays)"
+            if d and c.cmd == "FuzzyNot" and d.startswith("the missing-cell flags"):
+                # pinned tree: FuzzyNot is numpy's unary minus, which hands the mask array of its operand on to its result (values are new; masking a cell of the
+                # result does mask the input's cell).  Outside the arithmetic commands C07 speaks of; counted and noted, not raised
+                ctx.count("fresh_result_flags_shared_by_unary_minus")
+                ctx.notes.setdefault("pinned_tree_facts", ["FuzzyNot: the result shares its missing-cell flags with the input (numpy unary minus)"])
+                d = None
+            if d:
+                ctx.fail("%s over %d input(s): %s - the result is not an array of its own, editing or masking it in place changes the input field" % (c.cmd, len(c.inputs), d), c.describe())
         if rerun and out["status"] == "ok":
             # the same command over the very same input objects again (no copies in between) must give the same result:
             # a body that writes into an input array corrupts every later consumer of that input
@@ -1410,6 +1429,33 @@ def run_stream(ctx, model, cases, stream, tol=common.TOL, on_result=None, rerun=
         if on_result:
             on_result(c, out, ans)
     return kept, outs, answers
+
+
+# the commands that hand their input object back when the list holds a single field (heap model `aliases`; every other body allocates)
+HANDS_BACK_SINGLE = {"Minimum", "Maximum", "FuzzyOr", "FuzzyAnd"}
+
+
+def result_shares(out):
+    """None, or how the result of a successful run_impl is tied to one of the arrays its producers handed out (same object / shared values / shared missing-cell flags)"""
+    r = out.get("result")
+    if not isinstance(r, numpy.ndarray):
+        return None
+
+    def overlap(x, y):
+        if not (isinstance(x, numpy.ndarray) and isinstance(y, numpy.ndarray) and x.size and y.size) or not numpy.may_share_memory(x, y):
+            return False
+        try:
+            return bool(numpy.shares_memory(x, y, max_work=10 ** 6))
+        except Exception:  # noqa   (too hard to decide exactly: not held against the command)
+            return False
+    for k, h in enumerate(out.get("handed", [])):
+        if r is h:
+            return "the result is the very array object of input no. %d" % k
+        if overlap(numpy.ma.getdata(r), numpy.ma.getdata(h)):
+            return "the values of the result share memory with the values of input no. %d" % k
+        if overlap(numpy.ma.getmask(r), numpy.ma.getmask(h)):
+            return "the missing-cell flags of the result share memory with those of input no. %d" % k
+    return None
 
 
 def _rng2(ctx):
